@@ -1040,6 +1040,18 @@ def c20(ctx):
                 ops += [('probe', 2), ('probe', 3)]
             ops += ([('heap', 0), ('heap', 1)] if hg.caps['heap'] else []) + [('probe', 0), ('probe', 1)]
             cases.append((name, ops)); note_case(res, name, ops)
+    # every form on its own, from a fresh region: the first push, then growing and shrinking items (for a columns or
+    # slice entry: rows of 1, 3, 0, 4, 2 elements), in lock step with the canonical-form twin
+    for name, e in ENTRIES:
+        if coded(e): continue
+        sh = shape(e)
+        for f in range(len(forms(e))):
+            hg = HistGen(ctx, name, e); hg.vg.big = False; ops = []
+            if sh[0] == 'list': vals = [[hg.vg.gen(sh[1]) for _ in range(w)] for w in (1, 3, 0, 4, 2)]
+            else: vals = [hg.value(repeat=0.2) for _ in range(4)]
+            for v in vals: ops += [('push', 0, f, v), ('push', 1, 0, v, 'twin')]
+            ops += ([('heap', 0), ('heap', 1)] if hg.caps['heap'] else []) + [('probe', 0), ('probe', 1)]
+            cases.append((name, ops)); note_case(res, name, ops)
     for name, e in pick_entries(lambda nm, e: e[0] == 'huf'):
         for _ in range(6 if not ctx.thorough else 60):
             k = ctx.rng.choice([4, 5, 7])
